@@ -296,10 +296,14 @@ def check_c04(ctx):
     counts = recount_affinity(cell)
     nodes = cellobs.all_nodes(cell)
     nodes.sort(key=lambda n: (str(n.level), n.name))
+    level_fn = getattr(ctx.truth, 'level_of', None)
     for node in nodes:
         per = counts.get(id(node), {})
+        # (master level: the level a node stands for is read off its name by
+        # the harness - "<level>:<id>" - not taken from the loaded object)
+        level = level_fn(node) if level_fn is not None else node.level
         for aff in sorted(per):
-            limit = ctx.truth.limits_of(aff).get(node.level)
+            limit = ctx.truth.limits_of(aff).get(level)
             if limit is not None and per[aff] > limit:
                 # provenance: which path put an instance of this affinity
                 # under this node in this cycle
